@@ -1,4 +1,4 @@
-import FeatModel.Lemmas.C20Table2
+import FeatModel.Lemmas.C20Frame
 /-! # C20 — container lifetimes are memory-safe: arrays freed exactly once, no leaks
 
 Theorems about `FeatModel.Pool.step` / `run` / `finalize`, the functions the driver `drv_c20` executes against the
@@ -123,14 +123,20 @@ theorem C20.sharing_after_clone (s s' : State) (a b mode : Nat) (fill : Int) (cb
 /-- sharing table, convert between two distinct containers (same or other type): exactly the arrays whose element
     type agrees are shared (DT equal / IT different shares the data arrays only, and vice versa) -/
 theorem C20.sharing_after_convert (s s' : State) (a b dt it : Nat) (cb : Cont)
-    (h : step s (.conv a b dt it) = .ok s') (hb : s.slot b = some cb) (hab : a ≠ b) :
+    (h : step s (.conv a b dt it) = .ok s') (hb : s.slot b = some cb) (hab : a ≠ b) (hk : cb.kind < 7) :
     ∃ c', s'.slot a = some c' ∧ s'.slot b = some cb ∧ c'.foreign = false ∧
       (if c'.dt = cb.dt then c'.elems = cb.elems else FreshL s.pool.length c'.elems) ∧
-      (if c'.it = cb.it then c'.inds = cb.inds else FreshL s.pool.length c'.inds) := step_conv_table h hb hab
+      (if c'.it = cb.it then c'.inds = cb.inds else FreshL s.pool.length c'.inds) := step_conv_table h hb hab hk
 
-/-- `x.convert(x)` is a no-op -/
+/-- sharing table, convert of SparseVector / SparseVectorBlocked (kinds 7, 8): a deep copy, nothing is shared -/
+theorem C20.sharing_after_convert_sparse_vector (s s' : State) (a b dt it : Nat) (cb : Cont)
+    (h : step s (.conv a b dt it) = .ok s') (hb : s.slot b = some cb) (hk : 7 ≤ cb.kind) :
+    ∃ c', s'.slot a = some c' ∧ c'.foreign = false ∧ FreshL s.pool.length c'.elems ∧
+      FreshL s.pool.length c'.inds := step_conv_sv_table h hb hk
+
+/-- `x.convert(x)` is a no-op (every kind that converts through `Container::assign`) -/
 theorem C20.self_convert_noop (s s' : State) (a dt it : Nat) (c : Cont) (h : step s (.conv a a dt it) = .ok s')
-    (hs : s.slot a = some c) : s'.slot a = some c ∧ s'.pool = s.pool := step_conv_self h hs
+    (hs : s.slot a = some c) (hk : c.kind < 7) : s'.slot a = some c ∧ s'.pool = s.pool := step_conv_self h hs hk
 
 /-- sharing table, layouts: `L = m.layout()` holds exactly `m`'s index arrays; `M(L)` / `m = L` shares exactly the
     layout's index arrays and gets a fresh data array -/
@@ -165,6 +171,38 @@ theorem C20.move_between_view_and_owner (s s' : State) (a b : Nat) (ca cb : Cont
   refine ⟨c1, h1, h2, h3, h4, h5, h7, fun hf => ?_⟩
   rw [releaseOwn_view s.pool ca hf] at h7
   injection h7 with h7; exact h7.symm
+
+/-- frame: an operation leaves every container slot it does not name untouched, hence also the sharing relation
+    (`Shares s c d` = the containers in slots `c`, `d` refer to a common chunk) between any two such slots -/
+theorem C20.bystanders_untouched (s s' : State) (op : Op) (h : step s op = .ok s') :
+    (∀ c, c ∉ op.targets → s'.slot c = s.slot c) ∧
+    (∀ c d, c ∉ op.targets → d ∉ op.targets → (Shares s' c d ↔ Shares s c d)) :=
+  ⟨fun c hc => step_frame h c hc, fun _ _ hc hd => shares_frame h hc hd⟩
+
+/-- sharing relatives arise only by inheritance along the operation history: a new relation between the target `a`
+    of clone / convert / adopt / layout-construction and an owning bystander `c` exists only if the SOURCE already was
+    a relative of `c` (for clone additionally only in the modes Shallow, Layout, Weak; for a matrix made from a layout
+    only through the layout's index arrays) -/
+theorem C20.relatives_only_inherited (s s' : State) (hi : Inv s) (a c : Nat) (cc : Cont) (hca : c ≠ a)
+    (hsc : s.slot c = some cc) (hf : cc.foreign = false) (hsh : Shares s' a c) :
+    (∀ b mode fill cb, step s (.clone a b mode fill) = .ok s' → s.slot b = some cb →
+        Shares s b c ∧ mode ≠ 3 ∧ mode ≠ 4) ∧
+    (∀ b dt it cb, step s (.conv a b dt it) = .ok s' → s.slot b = some cb → a ≠ b → cb.kind < 7 → Shares s b c) ∧
+    (∀ b cb, step s (.adopt a b) = .ok s' → s.slot b = some cb → cb.size ≠ 0 → Shares s b c) ∧
+    (∀ l kind dt fill L, step s (.mlay a l kind dt fill) = .ok s' → s.lay l = some L →
+        ∃ j, j ∈ idsOf L.inds ∧ j ∈ cc.ids) :=
+  ⟨fun _ _ _ _ h hb => clone_relatives hi h hb hca hsc hf hsh,
+   fun _ _ _ _ h hb hab hk => conv_relatives hi h hb hab hk hca hsc hf hsh,
+   fun _ _ h hb hn => adopt_relatives h hb hn hca hsc hsh,
+   fun _ _ _ _ _ h hl => mlay_relatives hi h hl hca hsc hf hsh⟩
+
+/-- observable independence: a write or a format through container `a` changes neither the slot nor the observable
+    contents (what is read through every array) of any container that is not a sharing relative of `a` -/
+theorem C20.write_invisible_outside_relatives (s s' : State) (a c : Nat) (cc : Cont)
+    (hsc : s.slot c = some cc) (hn : ¬ Shares s a c) :
+    (∀ w j i v, step s (.write a w j i v) = .ok s' → s'.slot c = some cc ∧ cc.obs s'.pool = cc.obs s.pool) ∧
+    (∀ v, step s (.format a v) = .ok s' → s'.slot c = some cc ∧ cc.obs s'.pool = cc.obs s.pool) :=
+  ⟨fun _ _ _ _ h => write_invisible h hsc hn, fun _ h => format_invisible h hsc hn⟩
 
 /-- the history that leaked two chunks before /repo commit eef945341 (one layout object assigned twice, everything
     destroyed; former finding F-C20-1) now ends with an empty pool and a clean `finalize` -/
